@@ -26,7 +26,14 @@ func compileTypeCast(
 	if !targetType.IsValid() {
 		return types.Type{}, errors.New("unknown cast target type")
 	}
-	sourceType, err := Compile(context.Child(ctx, ctx.AST.Expression()).WithHint(targetType))
+	// The target type is a hint for a (possibly negated) literal operand only (`u8(255)`,
+	// `i8(-1)`); for any other operand it is not the operand's type (`i8(1 + x_i64)`), so it
+	// must not leak into it.
+	hint := types.Type{}
+	if isLiteralOperand(ctx.AST.Expression()) {
+		hint = targetType
+	}
+	sourceType, err := Compile(context.Child(ctx, ctx.AST.Expression()).WithHint(hint))
 	if err != nil {
 		return types.Type{}, err
 	}
@@ -34,6 +41,54 @@ func compileTypeCast(
 		return types.Type{}, err
 	}
 	return targetType, nil
+}
+
+// isLiteralOperand reports whether expr is a literal, optionally under unary minus signs.
+func isLiteralOperand(expr parser.IExpressionContext) bool {
+	if expr == nil {
+		return false
+	}
+	or := expr.LogicalOrExpression()
+	if or == nil || len(or.AllLogicalAndExpression()) != 1 {
+		return false
+	}
+	and := or.AllLogicalAndExpression()[0]
+	if len(and.AllEqualityExpression()) != 1 {
+		return false
+	}
+	eq := and.AllEqualityExpression()[0]
+	if len(eq.AllRelationalExpression()) != 1 {
+		return false
+	}
+	rel := eq.AllRelationalExpression()[0]
+	if len(rel.AllAdditiveExpression()) != 1 {
+		return false
+	}
+	add := rel.AllAdditiveExpression()[0]
+	if len(add.AllMultiplicativeExpression()) != 1 {
+		return false
+	}
+	mul := add.AllMultiplicativeExpression()[0]
+	if len(mul.AllPowerExpression()) != 1 {
+		return false
+	}
+	pow := mul.AllPowerExpression()[0]
+	if pow.CARET() != nil {
+		return false
+	}
+	unary := pow.UnaryExpression()
+	for unary != nil && unary.MINUS() != nil {
+		unary = unary.UnaryExpression()
+	}
+	if unary == nil || unary.PostfixExpression() == nil {
+		return false
+	}
+	postfix := unary.PostfixExpression()
+	if len(postfix.AllIndexOrSlice()) > 0 || len(postfix.AllFunctionCallSuffix()) > 0 {
+		return false
+	}
+	primary := postfix.PrimaryExpression()
+	return primary != nil && primary.Literal() != nil
 }
 
 func extractType(typeCtx parser.ITypeContext) types.Type {
